@@ -260,7 +260,7 @@ class G(GA.G):
             self.excl.append(cur)
             cur = self.act(cur)
         elif kind == 'bnalone':    # BatchNorm that cannot be fused (after an activation)
-            if self.nodes[cur]['k'] in ('conv1d', 'conv2d', 'linear'):
+            if self.nodes[cur]['k'] in ('conv1d', 'conv2d', 'linear', 'bn1d', 'bn2d'):
                 cur = self.add(k='relu', src=cur)
             cur = self.bn(cur, 1.0)
         elif kind == 'dw':
